@@ -263,7 +263,7 @@ func fsmPairedExplore(c *Ctx, n, t int, maxStates int) (states, pairs int) {
 }
 
 func checkC19(c *Ctx) {
-	c.Rule = "two explorations. (1) state_machines driven directly (Create/Do/Dump/FromDump) breadth-first over the full event alphabet incl. the hand-over events and two signing batches: for every reachable state and every event, continuing on the live instance is compared with continuing on an instance restored from the dump (acceptance, next state, response JSON, resulting dump); every reachable state must restore. (2) the C05 node-level exploration and the C06 signing exploration: every reachable persisted round must restore and the node's round listing must succeed on a store containing it. distinct = distinct reachable states judged"
+	c.Rule = "two explorations. (1) state_machines driven directly (Create/Do/Dump/FromDump) breadth-first over the full event alphabet incl. the hand-over events and two signing batches: for every reachable state and every event, continuing on the live instance is compared with continuing on an instance restored from the dump (acceptance, next state, response JSON, resulting dump); every reachable state must restore. (2) the C05 node-level exploration and the C06 signing exploration: every reachable persisted round must restore and the node's round listing must succeed on a store containing it. In (1) a second comparison keeps ONE instance alive through the whole path since the last hand-over (every accepted event, an eighth of the others). distinct = distinct reachable states judged"
 	c.Assumptions = []string{"hand-over states (proposal collected, master key collected) are excluded from the live-vs-restored comparison only: the machine that reached them cannot continue by construction and the node always restores there", "responses built by iterating Go maps are compared as multisets"}
 	c.Exhaustive = true
 	type cfg struct{ n, t int }
